@@ -96,7 +96,9 @@ func (n *Node) PackBlock(proposer *Key, ts int64) (*pb.InternalBlock, error) {
 // ConfirmForMiner is the real miner.confirmBlockForMiner (ledger confirm, PlayForMiner) under
 // the null consensus.
 func (n *Node) ConfirmForMiner(b *pb.InternalBlock) error {
-	return n.Miner(K(0)).VerifConfirmBlockForMiner(n.reqCtx(), b)
+	// (after a block that changes access-control rules the miner refreshes the pool with a walk
+	// to the own block: wait for its re-admission goroutine)
+	return n.withRecovery(func() error { return n.Miner(K(0)).VerifConfirmBlockForMiner(n.reqCtx(), b) })
 }
 
 // TruncateForMiner is the real miner.truncateForMiner (consensus-ordered rollback: the state
